@@ -40,7 +40,10 @@ HELPER_HOLES = [
 ]
 # a user expression written AFTER a sibling of each template kind, in the same scope: whatever that sibling's template
 # bound must not be visible there (plain-looking names a template might use for its locals)
-PLAIN_NAMES = ["actual", "expected", "re", "tmp", "value", "result", "pattern", "elem", "__assert_struct_tmp", "pat", "expr", "lhs", "rhs", "left", "right", "regex", "lit", "val"]
+PLAIN_NAMES = ["actual", "expected", "re", "tmp", "value", "result", "pattern", "elem", "__assert_struct_tmp", "pat", "expr", "lhs", "rhs", "left", "right", "regex", "lit", "val",
+               "slice", "items", "elems", "len", "idx", "key", "keys", "entry", "map", "set", "coll", "iter", "it", "e", "node", "report", "matched", "found", "label", "text", "src", "this", "other", "got", "want", "res", "ok", "cond"]
+# (not `x` and not `v`: the templates below bind `x` themselves as a closure parameter and the generated program binds `v` - a caller
+#  variable of that name is shadowed by the caller's own code, which is not capture by the expansion)
 for _kind, _sib in [("simple", "g: 4"), ("comparison", "g: > 0"), ("range", "g: 1..=9"), ("variant", "o: Some(3)"), ("slice", "xs: [10, ..]"),
                     ("tuple", "t: (3, _)"), ("set", "xs: #(10, ..)"), ("map", 'm: #{{ "a": 1, .. }}'), ("closure", "g: |x| *x > 0"),
                     ("like", "g: =~ Num(4)"), ("index", "xs[0]: 10"), ("method", "xs.len(): 3"), ("wildcard-struct", "t: _ {{ 0: 3, .. }}")]:
